@@ -68,6 +68,7 @@ fn locations(files: &[String], inp: &str) -> (String, String) {
         "dotdir" => ("./src".to_string(), "./out".to_string()),
         "file" if files.len() == 1 => (files[0].clone(), mirrored(&files[0])),
         "dotfile" if files.len() == 1 => (format!("./{}", files[0]), mirrored(&files[0])),
+        "dslashfile" if files.len() == 1 => (files[0].replacen("src/", "src//", 1), mirrored(&files[0])),
         "updownfile" if files.len() == 1 => (files[0].replacen("src/", "src/x/../", 1), mirrored(&files[0])),
         _ => ("src".to_string(), "out".to_string()),
     }
